@@ -156,6 +156,68 @@ class Prop:
                                      d[1][:40], [g[1][:20] for g in got], {'kind': 'bystander', 'frontend': fe})
                             break
 
+        # (c) many well-formed messages in flight at once (more slots than the sequence ids 0-9 on two channels give),
+        # a malformed line in their middle: every message in another slot is delivered
+        seqs = [''] + [str(i) for i in range(11)]
+        slots = [(s_, c) for c in ['A', 'B', '1', '2', ''] for s_ in seqs]
+        for n in (34, len(slots)):
+            msgs = []
+            for seq, chan in slots[:n]:
+                bits = gen.payload_bits(rng, 'MessageType5')
+                msgs.append((seq, chan, gen.render(bits, seq=seq, chan=chan, cuts=[rng.randint(5, 60)])))
+            some = [x for x in muts if x[0] in ('frag1', 'single')][:: max(1, len(muts) // 12)][:12]
+            ops, meta = [], []
+            for name, label, m in some:
+                lines = [f[0] for _, _, f in msgs] + [m] + [f[1] for _, _, f in msgs]
+                for fe in ('iter', 'bytestream', 'queue'):
+                    ops.append('stream %s 0 %s' % (fe, ' '.join(impl.hx(l) for l in lines)))
+                    meta.append((fe, m, name, label))
+            outs = ctx.corr(ops, impl.step, 'stream-many-slots')
+            pslots = {m: slot_of(impl.step('parse ' + impl.hx(m))) for _, m, _, _ in meta}
+            for (fe, m, name, label), o in zip(meta, outs):
+                inp = {'cmd': 'stream', 'frontend': fe, 'tbq': 0, 'mutated': m.hex(), 'case': '%s/%s many-slots=%d' % (name, label, n)}
+                if 'CRASH' in o:
+                    ctx.fail('a reader raised on a malformed line', inp, 'no exception', o[o.index('CRASH'):],
+                             {'kind': 'reader-crash', 'exc': o[o.index('CRASH') + 6:], 'frontend': fe})
+                    continue
+                got = {d[0] for d in deliveries(o)}
+                ms = pslots[m]
+                lost = [(seq, chan) for seq, chan, f in msgs
+                        if (b'\n'.join(f)).hex() not in got and not (ms is not None and ms == ((seq or 'N'), impl.hx(chan.encode())))]
+                if lost:
+                    ctx.fail('a well-formed message was lost or altered by an unrelated malformed line', inp,
+                             '%d messages delivered' % n, 'missing: %s' % lost[:5], {'kind': 'bystander', 'frontend': fe})
+
+        # (d) a file of more than a mebibyte in which a line ends exactly on the 2**20 byte boundary (readers that fetch
+        # the file in blocks), a few malformed lines sprinkled in: every intact message is delivered, in order
+        import tempfile
+        sents = []
+        for k in range(7):
+            b8 = gen.payload_bits(rng, 'MessageType8', length=264)
+            sents.append(gen.sentence('AIVDM', 1, 1, '', 'AB'[k % 2], gen.armor(b8)[0], 0))
+        assert all(len(x) == 63 for x in sents)
+        lines = [sents[i % 7] for i in range(16390)]
+        for pos, bad in ((5, b'!AIVDM,' + b'x' * 56), (16383, b'$' + b'G' * 62), (16384, b'\\' + b's' * 62)):
+            lines[pos] = bad
+        with tempfile.NamedTemporaryFile(suffix='.nmea') as f:
+            f.write(b''.join(l + b'\n' for l in lines))
+            f.flush()
+            for name, mk in (('FileReaderStream', lambda: impl.ST.FileReaderStream(f.name)),
+                             ('BinaryIOStream', lambda: impl.ST.BinaryIOStream(open(f.name, 'rb')))):
+                ctx.evaluations += 1
+                ctx.count('megabyte_file:' + name)
+                try:
+                    got = [bytes(m.raw) for m in mk()]
+                except Exception as e:  # noqa
+                    got = impl.err(e)
+                exp = [l for i, l in enumerate(lines) if i not in (5, 16383, 16384)]
+                if got != exp:
+                    first = next((i for i, (a, b) in enumerate(zip(got, exp)) if a != b), min(len(got), len(exp))) \
+                        if isinstance(got, list) else -1
+                    ctx.fail('a reader over a large file loses or alters intact messages', {'cmd': 'megabyte-file', 'reader': name},
+                             '%d messages' % len(exp), got if isinstance(got, str) else
+                             '%d messages, first difference at #%d' % (len(got), first), {'kind': 'bystander', 'frontend': name})
+
     def replay(self, ctx, payload):
         inp = payload['failure']['input']
         if inp['cmd'].startswith('decode'):
